@@ -27,6 +27,7 @@ PREFIX = "/simfs"
 
 _real_open = io.open
 _real_getcwd = os.getcwd
+_real_chdir = os.chdir
 _real_stat = os.stat
 _real_lstat = os.lstat
 _real_replace = os.replace
@@ -272,6 +273,30 @@ def _dispatch_getcwd():
     return fs.cwd
 
 
+def _dispatch_chdir(path):
+    """the working directory is process-wide state like any other: a simulated directory becomes the simulated
+    cwd (and an io pre-emption point, so that other threads can look at it in between)"""
+    fs = ACTIVE
+    if fs is None:
+        return _real_chdir(path)
+    p = os.fspath(path)
+    if isinstance(p, bytes):
+        p = os.fsdecode(p)
+    full = os.path.normpath(p if os.path.isabs(p) else os.path.join(fs.cwd, p))
+    if IO_HOOK is not None:
+        IO_HOOK("chdir", full)
+    if full in fs.dirs:
+        fs.cwd = full
+        fs.chdirs = getattr(fs, "chdirs", 0) + 1
+        return None
+    if full.startswith(PREFIX):
+        raise FileNotFoundError(errno.ENOENT, os.strerror(errno.ENOENT), p)
+    # a real directory (the stub-fidelity replays run the same code over a real tree): the real thing, mirrored
+    _real_chdir(path)
+    fs.cwd = _real_getcwd()
+    return None
+
+
 def _dispatch_stat(path, *a, **kw):
     fs = ACTIVE
     if fs is None or a:
@@ -310,6 +335,7 @@ def install():
     builtins.open = _dispatch_open
     io.open = _dispatch_open
     os.getcwd = _dispatch_getcwd
+    os.chdir = _dispatch_chdir
     os.stat = _dispatch_stat
     os.lstat = _dispatch_lstat
     os.replace = _dispatch_replace
